@@ -2,9 +2,10 @@
 //
 //	seqwait replay -in behaviours.ndjson -out result.json
 //	    every line is a behaviour exported by TLC: Sub(prefix) = db.GetSequenceUpdates, Put(prefix) = a
-//	    sequence put (delta 1) through ProcessWrite, Close(handle) = SequenceWaiter.Close, Drain = a
-//	    non-blocking read of the channel of every waiter created so far.  The handle order, the generated key
-//	    and what every channel returns are compared with the specification.
+//	    sequence put (with the delta of the step, any uint64; 1 if none is given) through ProcessWrite,
+//	    Close(handle) = SequenceWaiter.Close, Drain = a non-blocking read of the channel of every waiter
+//	    created so far.  The handle order, the generated key (its number = its rank among the keys generated
+//	    for the prefix, and its suffix) and what every channel returns are compared with the specification.
 //	seqwait drive -seed S -n N -ops K -out trace.ndjson
 //	    random subscriber lifecycles on the real kv.DB, recorded for validation by SeqWaitTrace.tla.
 package main
@@ -19,6 +20,7 @@ import (
 	"math/rand"
 	"os"
 	"reflect"
+	"strconv"
 	"strings"
 	"time"
 
@@ -29,12 +31,40 @@ import (
 	"github.com/oxia-db/oxia/server/kv"
 )
 
+// digits is a decimal number as TLC sees it: the sequence of its character codes.
+type digits []int
+
+func (d digits) String() string {
+	b := make([]byte, len(d))
+	for i, c := range d {
+		b[i] = byte(c)
+	}
+	return string(b)
+}
+
+func digitsOf(s string) digits {
+	d := make(digits, len(s))
+	for i := 0; i < len(s); i++ {
+		d[i] = int(s[i])
+	}
+	return d
+}
+
+func (d digits) MarshalJSON() ([]byte, error) {
+	if len(d) == 0 {
+		return []byte("[]"), nil
+	}
+	return json.Marshal([]int(d))
+}
+
 type step struct {
 	A   string `json:"a"`
 	P   string `json:"p"`
 	W   int    `json:"w"`
 	K   int    `json:"k"`
 	Obs []int  `json:"obs"`
+	D   digits `json:"d"`   // Put: the delta (empty = 1)
+	Sfx digits `json:"sfx"` // Put: the 20-digit suffix of the generated key
 }
 
 type sim struct {
@@ -43,6 +73,7 @@ type sim struct {
 	db      kv.DB
 	off     int64
 	waiters []kv.SequenceWaiter
+	keys    map[string][]string // prefix -> the keys generated so far, in order
 }
 
 func newSim() (*sim, error) {
@@ -62,7 +93,7 @@ func newSim() (*sim, error) {
 	if err != nil {
 		return nil, err
 	}
-	return &sim{dir: dir, f: f, db: db}, nil
+	return &sim{dir: dir, f: f, db: db, keys: map[string][]string{}}, nil
 }
 
 func (s *sim) close() {
@@ -74,16 +105,15 @@ func (s *sim) close() {
 	_ = os.RemoveAll(s.dir)
 }
 
-// number of the key "<prefix>-%020d"
-func keyNo(prefix, key string) int {
-	var n int
-	if !strings.HasPrefix(key, prefix+"-") {
-		return -999
+// keyNo is the number of a key of the prefix: its rank among the keys generated for the prefix so far
+// (-999: not one of them).
+func (s *sim) keyNo(prefix, key string) int {
+	for i, k := range s.keys[prefix] {
+		if k == key {
+			return i + 1
+		}
 	}
-	if _, err := fmt.Sscanf(key[len(prefix)+1:], "%d", &n); err != nil {
-		return -999
-	}
-	return n
+	return -999
 }
 
 // exec performs the call of st (arguments only) with a watchdog and fills in what was observed.
@@ -117,8 +147,16 @@ func (s *sim) exec0(st *step, prefixOf map[int]string) string {
 		st.W = len(s.waiters)
 		prefixOf[st.W] = st.P
 	case "Put":
+		delta := uint64(1)
+		if len(st.D) > 0 {
+			d, err := strconv.ParseUint(st.D.String(), 10, 64)
+			if err != nil {
+				return "harness: delta " + st.D.String() + " is not a uint64"
+			}
+			delta = d
+		}
 		res, err := s.db.ProcessWrite(&proto.WriteRequest{Puts: []*proto.PutRequest{{Key: st.P, Value: []byte("v"),
-			PartitionKey: pb.String("pk"), SequenceKeyDelta: []uint64{1}}}}, s.off, uint64(1000+s.off), kv.NoOpCallback)
+			PartitionKey: pb.String("pk"), SequenceKeyDelta: []uint64{delta}}}}, s.off, uint64(1000+s.off), kv.NoOpCallback)
 		if err != nil {
 			return "ProcessWrite: " + err.Error()
 		}
@@ -126,7 +164,15 @@ func (s *sim) exec0(st *step, prefixOf map[int]string) string {
 		if len(res.Puts) != 1 || res.Puts[0].Status != proto.Status_OK {
 			return fmt.Sprintf("sequence put: %v", res)
 		}
-		st.K = keyNo(st.P, res.Puts[0].GetKey())
+		key := res.Puts[0].GetKey()
+		if st.K = s.keyNo(st.P, key); st.K < 0 {
+			s.keys[st.P] = append(s.keys[st.P], key)
+			st.K = len(s.keys[st.P])
+		}
+		if !strings.HasPrefix(key, st.P+"-") {
+			return fmt.Sprintf("sequence put on %q generated the key %q", st.P, key)
+		}
+		st.Sfx = digitsOf(key[len(st.P)+1:])
 	case "Close":
 		if st.W < 1 || st.W > len(s.waiters) {
 			return "harness: no such waiter"
@@ -141,7 +187,7 @@ func (s *sim) exec0(st *step, prefixOf map[int]string) string {
 				if !ok {
 					st.Obs = append(st.Obs, -1)
 				} else {
-					st.Obs = append(st.Obs, keyNo(prefixOf[i+1], k))
+					st.Obs = append(st.Obs, s.keyNo(prefixOf[i+1], k))
 				}
 			default:
 				st.Obs = append(st.Obs, 0)
@@ -167,7 +213,7 @@ func replayOne(beh []step) (*mismatch, error) {
 	defer s.close()
 	prefixOf := map[int]string{}
 	for i := range beh {
-		got := step{A: beh[i].A, P: beh[i].P, W: beh[i].W}
+		got := step{A: beh[i].A, P: beh[i].P, W: beh[i].W, D: beh[i].D}
 		if got.A == "Sub" {
 			got.W = 0
 		}
@@ -186,6 +232,8 @@ func replayOne(beh []step) (*mismatch, error) {
 			return &mismatch{beh[:i+1], i, fmt.Sprintf("handle: spec %d, code %d", want.W, got.W)}, nil
 		case got.A == "Put" && got.K != want.K:
 			return &mismatch{beh[:i+1], i, fmt.Sprintf("generated key number: spec %d, code %d", want.K, got.K)}, nil
+		case got.A == "Put" && len(want.Sfx) > 0 && got.Sfx.String() != want.Sfx.String():
+			return &mismatch{beh[:i+1], i, fmt.Sprintf("suffix of the generated key: spec %s, code %s", want.Sfx, got.Sfx)}, nil
 		case got.A == "Drain" && !reflect.DeepEqual(got.Obs, want.Obs):
 			return &mismatch{beh[:i+1], i, fmt.Sprintf("what the subscribers' channels return (per handle; 0 = nothing, -1 = closed): spec %v, code %v", want.Obs, got.Obs)}, nil
 		}
@@ -281,16 +329,35 @@ func cmdDrive(args []string) int {
 			fmt.Fprintln(os.Stderr, err)
 			return 2
 		}
-		_ = enc.Encode(&step{A: "Reset", Obs: []int{}})
+		_ = enc.Encode(&step{A: "Reset", Obs: []int{}, D: digits{}, Sfx: digits{}})
 		prefixOf := map[int]string{}
 		open := []int{}
+		cur := map[string]uint64{} // prefix -> suffix of its last key
+		wide := t%2 == 1           // every second lifecycle moves its sequences anywhere in the uint64 range
 		for k := 0; k < *ops; k++ {
-			st := step{}
+			st := step{Obs: []int{}, D: digits{}, Sfx: digits{}}
 			switch x := rng.Intn(100); {
 			case x < 25:
 				st.A, st.P = "Sub", prefixes[rng.Intn(len(prefixes))]
 			case x < 55:
 				st.A, st.P = "Put", prefixes[rng.Intn(len(prefixes))]
+				d := uint64(1 + rng.Intn(3))
+				if wide && (cur[st.P] == 0 && rng.Intn(3) > 0 || rng.Intn(8) == 0) {
+					// a jump to a few steps below / above 2^31, 2^32, 2^62, 2^63, 2^64-1
+					b := []uint64{1 << 31, 1 << 32, 1 << 62, 1 << 63, ^uint64(0) - 12}[rng.Intn(5)]
+					if tgt := b - 6 + uint64(rng.Intn(12)); tgt > cur[st.P] {
+						d = tgt - cur[st.P]
+					}
+				}
+				if d > ^uint64(0)-cur[st.P] {
+					// the exact result would not be a uint64 (OxiaDb.tla: SeqOverflow, not a step of SeqWaiters)
+					if d = ^uint64(0) - cur[st.P]; d == 0 {
+						st.A, st.P = "Drain", ""
+						break
+					}
+				}
+				cur[st.P] += d
+				st.D = digitsOf(strconv.FormatUint(d, 10))
 			case x < 72 && len(open) > 0:
 				i := rng.Intn(len(open))
 				if rng.Intn(3) == 0 {
